@@ -16,7 +16,14 @@ TEXTS = {"form": 0, "type": 1, "tostring": 2, "validity": 3, "tojson": 5}
 
 # ================================================================================================ generator
 def spec_info(spec):
-    return {"length": lg.spec_len(spec), "depth": lg.depth_of(spec), "keys": lg.keys_of(spec)}
+    info = {"length": lg.spec_len(spec), "depth": lg.depth_of(spec), "keys": lg.keys_of(spec)}
+    try:
+        inner = [len(x) for x in lg.value_of(spec) if isinstance(x, list)]
+    except Exception:
+        inner = []
+    if inner:
+        info["inner"] = max(inner)
+    return info
 
 
 def generate(rng, opts):
@@ -96,7 +103,8 @@ def structure_text(node, h):
     global _ADDR
     import re
     if _ADDR is None:
-        _ADDR = (re.compile(r' at="0x[0-9a-f]+"'), re.compile(r'<NumpyArray [^>]*>'))
+        # (addresses, and the serial number every new Identities object draws from a process-wide counter)
+        _ADDR = (re.compile(r' at="0x[0-9a-f]+"| ref="\d+"'), re.compile(r'<NumpyArray [^>]*>'))
     try:
         if node.isscalar(h):
             return None
@@ -620,7 +628,7 @@ def tier_opts(tier):
         return {"runs": 300000, "determinism_sample": 1024, "perturb_sample": 4000, "asan_runs": 100000,
                 "pool_max_ops": 24, "layout_max_depth": 4, "layout_exotic_dtypes": True, "run_timeout": 30.0,
                 "shrink_per_class": 3, "mutants": True}
-    return {"layout_exotic_dtypes": True, "asan_runs": 8000, "runs": 30000, "determinism_sample": 64, "perturb_sample": 1000, "pool_max_ops": 14, "layout_max_depth": 3,
+    return {"layout_exotic_dtypes": True, "asan_runs": 16000, "runs": 30000, "determinism_sample": 64, "perturb_sample": 1000, "pool_max_ops": 14, "layout_max_depth": 3,
             "run_timeout": 10.0, "shrink_per_class": 2}
 
 
